@@ -256,4 +256,36 @@ theorem shake_embeds (ι : String → Nat) {P : Prog} {e : Nat} {out : ShakeOut}
         have hre : (shakeRen P m).type = rankMap (sortAsc m.types) := rfl
         rw [hre, hb]
 
+
+theorem sweep_fns_builtins {P : Prog} {e : Nat} {m : Marks} {out : ShakeOut} (h : sweep P e m = some out) :
+    ∃ fs fs' bs, getAll P.fns (sortAsc m.fns) = some fs ∧ mapOpt (shakeFn (shakeRen P m)) fs = some fs' ∧
+      out.prog.fns = fs'.toArray ∧ getAll P.builtins (sortAsc m.builtins) = some bs ∧
+      out.prog.builtins = (bs.map (shakeBuiltin (shakeRen P m))).toArray ∧
+      out.prog.resources = (sortStrAsc m.resources).toArray := by
+  simp only [sweep] at h
+  split at h
+  · rename_i fs cs ts bs ys e' hfs hcs hts hbs hys he'
+    split at h
+    · cases h
+    · rename_i fs' hfs'
+      cases h
+      exact ⟨fs, fs', bs, hfs, hfs', rfl, hbs, rfl, rfl⟩
+  · cases h
+
+/-- first index of a name (0 if absent) -/
+def nameIdx (n : String) : List String → Nat
+  | [] => 0
+  | a :: as => if a = n then 0 else nameIdx n as + 1
+
+theorem nameIdx_get {n : String} : ∀ {l : List String}, n ∈ l → l[nameIdx n l]? = some n
+  | [], h => by cases h
+  | a :: as, h => by
+    simp only [nameIdx]
+    split
+    · rename_i heq; simp [heq]
+    · rename_i hne
+      rcases List.mem_cons.mp h with h1 | h1
+      · exact (hne h1.symm).elim
+      · simpa using nameIdx_get h1
+
 end QM.Packaging
